@@ -518,11 +518,11 @@ func beforeGate(p *ana.Prog, fn *ssa.Function) *ana.Gate {
 		if isCmp {
 			return false, false
 		}
-		c, _ := ana.CallOf(v)
-		if c == nil || ana.CalleeName(c.Common()) != "(time.Time).Before" {
+		earlier, later, _, ok := strictOrder(v)
+		if !ok {
 			return false, false
 		}
-		if isParamOrDeref(c.Common().Args[0], "rxt") && isParamOrDeref(c.Common().Args[1], "txt") {
+		if isParamOrDeref(earlier, "rxt") && isParamOrDeref(later, "txt") {
 			return true, true
 		}
 		return false, false
@@ -915,20 +915,63 @@ func c06Listener(p *ana.Prog, r *ana.Result, name string, scion bool) {
 	kern := extractOf(rt, 0)
 	errv := extractOf(rt, 2)
 	idv := extractOf(rt, 1)
-	isSoftStore := func(in ssa.Instruction) bool {
-		st, ok := in.(*ssa.Store)
-		if !ok || st.Addr != ssa.Value(txt1) {
-			return false
-		}
-		ld, ok := st.Val.(*ssa.UnOp)
+	// assignments to txt1: real stores and, where a merged value is stored, the edges on which
+	// the merge takes each of its inputs
+	isSoftVal := func(v ssa.Value) bool {
+		ld, ok := v.(*ssa.UnOp)
 		return ok && ld.Op == token.MUL && ld.X == ssa.Value(txt0)
 	}
+	softEdges, kernEdges := ana.EdgeSet{}, ana.EdgeSet{}
+	otherVal := false
 	kernStored := false
+	softStores := map[ssa.Instruction]bool{}
+	var expand func(ph *ssa.Phi, seen map[*ssa.Phi]bool)
+	expand = func(ph *ssa.Phi, seen map[*ssa.Phi]bool) {
+		if seen[ph] {
+			return
+		}
+		seen[ph] = true
+		for i, e := range ph.Edges {
+			pred := ph.Block().Preds[i]
+			for si, sc := range pred.Succs {
+				if sc != ph.Block() {
+					continue
+				}
+				switch {
+				case kern != nil && e == ssa.Value(kern):
+					kernEdges[ana.Edge{From: pred, Succ: si}] = true
+					kernStored = true
+				case isSoftVal(e):
+					softEdges[ana.Edge{From: pred, Succ: si}] = true
+				default:
+					if q, ok := e.(*ssa.Phi); ok {
+						expand(q, seen)
+					} else {
+						otherVal = true
+					}
+				}
+			}
+		}
+	}
 	ana.Instrs(fn, func(in ssa.Instruction) {
-		if st, ok := in.(*ssa.Store); ok && st.Addr == ssa.Value(txt1) && kern != nil && st.Val == ssa.Value(kern) {
+		st, ok := in.(*ssa.Store)
+		if !ok || st.Addr != ssa.Value(txt1) {
+			return
+		}
+		switch {
+		case kern != nil && st.Val == ssa.Value(kern):
 			kernStored = true
+		case isSoftVal(st.Val):
+			softStores[in] = true
+		default:
+			if ph, ok := st.Val.(*ssa.Phi); ok && ph.Block().Dominates(st.Block()) {
+				expand(ph, map[*ssa.Phi]bool{})
+			} else {
+				otherVal = true
+			}
 		}
 	})
+	isSoftStore := func(in ssa.Instruction) bool { return softStores[in] }
 	good := ana.FindGate(p, fn, "tx-timestamp-read-ok", func(c ana.Cmp, isCmp bool, _ ssa.Value) (bool, bool) {
 		if !isCmp || (c.Op != token.EQL && c.Op != token.NEQ) {
 			return false, false
@@ -947,14 +990,18 @@ func c06Listener(p *ana.Prog, r *ana.Result, name string, scion bool) {
 	// (a) on err != nil or id != txid the software time is handed over
 	okA := true
 	for e := range good.Accept {
-		s := &ana.Search{Fn: fn, Stop: isSoftStore, Target: isUT}
+		s := &ana.Search{Fn: fn, Stop: isSoftStore, StopEdge: func(e ana.Edge) bool { return softEdges[e] }, Target: isUT}
 		if found, _ := runFromBlockEdge(s, e); found {
 			okA = false
 		}
 	}
 	// (b) the software time is handed over only on those edges
-	s := &ana.Search{Fn: fn, Cut: func(e ana.Edge) bool { return good.Accept[e] }, Target: isSoftStore, Stop: isUT}
+	s := &ana.Search{Fn: fn, Cut: func(e ana.Edge) bool { return good.Accept[e] }, Target: isSoftStore, TargetEdge: func(e ana.Edge) bool { return softEdges[e] }, Stop: isUT}
 	foundB, w := s.Run(rt)
+	if otherVal {
+		okA = false
+		w = append(w, "a value that is neither the kernel nor the software transmit time is assigned to the variable handed to updateTXTimestamp")
+	}
 	if kernStored && okA && !foundB && len(good.Accept) >= 2 {
 		r.Ok("C06.listener", fname, "tx-time-selection", posOf(p, rt), "updateTXTimestamp gets the kernel transmit timestamp when it was read without error and with the expected id, otherwise the software timestamp handleRequest used")
 	} else {
